@@ -53,7 +53,8 @@ def count_loc(class_node: Any, source: str) -> int:
         Number of code lines in class definition (blank and comment lines excluded)
     """
     # The class runs from its header (not from a decorator above it) to its end
-    header = next((child for child in class_node.children if child.type != "decorator"), class_node)
+    before_header = ("decorator", "comment")
+    header = next((c for c in class_node.children if c.type not in before_header), class_node)
     start_line = header.start_point[0]
     end_line = class_node.end_point[0]
     lines = source.split("\n")[start_line : end_line + 1]
